@@ -322,7 +322,47 @@ def lattice_cases(seed, ffs=FFS, per_structure=4, opts_fn=None, names=None, p=No
     return out
 
 
+def apply_icodes(out, rng, prob=0.3):
+    """Give some residues the number of their predecessor plus an insertion code (26, 26A, 26B ...), keeping items and
+    ground truth in step."""
+    items, truth = out["items"], out["truth"]
+    # residue blocks in file order
+    blocks, block, seg = [], None, 0
+    for it in items:
+        if not isinstance(it, dict):
+            if isinstance(it, str) and it.startswith("TER"):
+                seg += 1
+            continue
+        b = (it["chain"], it["resi"], it["icode"], seg)
+        if b != block:
+            block = b
+            blocks.append([])
+        blocks[-1].append(it)
+    if len(blocks) != len(truth):
+        return out
+    prev = None
+    for k, (atoms, t) in enumerate(zip(blocks, truth)):
+        if prev is not None and t["kind"] == "aa" and prev[0]["kind"] == "aa" and prev[0]["chain"] == t["chain"] and \
+                prev[2] == atoms[0].get("_seg", None) and rng.random() < prob:
+            nxt = {"": "A", "A": "B", "B": "C", "C": "D", "D": "E"}.get(prev[0]["icode"], "Z")
+            for a in atoms:
+                a["resi"], a["icode"] = prev[0]["resi"], nxt
+            t["resi"], t["icode"] = prev[0]["resi"], nxt
+        prev = (t, atoms, atoms[0].get("_seg", None))
+    out["text"] = pdbfmt.to_text(items)
+    out["meta"]["icodes"] = sum(1 for t in truth if t["icode"])
+    return out
+
+
 def materialise(spec):
+    out = _materialise(spec)
+    p = spec.get("p") or {}
+    if p.get("icode_prob") and random.Random(spec["seed"] + 17).random() < p["icode_prob"]:
+        apply_icodes(out, random.Random(spec["seed"] + 18))
+    return out
+
+
+def _materialise(spec):
     return {"synth": synth, "frag": frag, "topostress": topostress}[spec["w"]](spec)
 
 
